@@ -51,7 +51,40 @@ def spec_path(x):
     return x if os.path.isabs(x) else os.path.join(VERIF, 'contracts', x)
 
 
-def build_tu(o, canary=False):
+def auto_harness(o, ex):
+    """harness generated from the signature of the function under contract: every parameter is an explicit
+    nondeterministic object (named as in the C++ source, so that traces and native replay agree)"""
+    from .cxx2c import parse_fn_params, pass_mode
+    from .registry import R
+    from .gen import SELF_T
+    node = ex.node(o.enforce)
+    params, _ = parse_fn_params(node['type']['qualType'])
+    pn = [p for p in node.get('inner', []) if p.get('kind') == 'ParmVarDecl']
+    lines = ['void harness(void) {', '  HAVOC_BUFS;']
+    args = []
+    nsv = 0
+    if R[o.enforce]['cls']:
+        st = R[o.enforce].get('selft') or SELF_T[R[o.enforce]['cls']]
+        lines.append('  %s self_obj;' % st)
+        args.append('&self_obj')
+    for i, (p, pt) in enumerate(zip(pn, params)):
+        name = p.get('name') or '__p%d' % i
+        mode, ct = pass_mode(pt)
+        if ct.klass == 'sv':
+            nsv += 1
+            lines.append('  sv_t %s; %s.n = nondet_size(); MAKE_SV%s(%s);' % (name, name, '' if nsv == 1 else '2', name))
+        elif ct.arr:
+            lines.append('  %s %s%s;' % (ct.c, name, ct.arr))
+        else:
+            lines.append('  %s %s; { %s __nd_%s; %s = __nd_%s; }' % (ct.c, name, ct.c, name, name, name))
+        args.append(('&' if mode == 'ptr' and not ct.arr else '') + name)
+    lines.append('  %s(%s);' % (o.enforce, ', '.join(args)))
+    lines.append('  CANARY_POINT;')
+    lines.append('}')
+    return '\n'.join(lines)
+
+
+def build_tu(o, canary=False, witness=False):
     specs = {k: (spec_path(v) if isinstance(v, str) else v) for k, v in o.specs.items()}
     ex = extractor(o.cfg, o.src, sha(repr(sorted((k, str(v)) for k, v in specs.items()))), specs)
     needed = list(o.roots) + list(o.stop)
@@ -63,10 +96,16 @@ def build_tu(o, canary=False):
         parts.append('#define ' + d.replace('=', ' ', 1))
     if o.loop_contracts:
         parts.append('#define USE_LOOP_CONTRACTS 1')
-    if o.bufn:
+    if o.bufn and not witness:
         parts.append('#define BUF_N %d' % o.bufn)
     if canary:
         parts.append('#define CANARY 1')
+    bufn = o.bufn
+    if witness:
+        bufn = o.bufn or 64
+        parts.append('#define WITNESS 1')
+        parts.append('#define WB_FILL ' + ' '.join('WB_(%d)' % i for i in range(bufn)))
+        parts.append('#define BUF_N %d' % bufn)
     parts.append('#include "%s/model/base.h"' % VERIF)
     parts.append('#include "%s/model/simd.h"' % VERIF)
     parts.append('const char *g_p; const char *g_q; size_t g_k; size_t g_k2;\n#ifdef BUF_N\nchar g_buf[BUF_N], g_buf2[BUF_N];\n#endif')
@@ -78,14 +117,21 @@ def build_tu(o, canary=False):
     parts.append('/* ---- extracted functions ---- */')
     parts.append(gen_text)
     parts.append('/* ---- harness ---- */')
-    hp = os.path.join(VERIF, 'harness', o.harness) if not o.harness.startswith('/') and '\n' not in o.harness else None
-    parts.append(open(hp).read() if hp else o.harness)
+    if o.harness == 'auto':
+        htext = auto_harness(o, ex)
+    else:
+        hp = os.path.join(VERIF, 'harness', o.harness) if not o.harness.startswith('/') and '\n' not in o.harness else None
+        htext = open(hp).read() if hp else o.harness
+    parts.append(htext)
     text = '\n'.join(parts) + '\n'
     d = ensure_dir(os.path.join(BUILD, A.tu_hash(o.cfg, o.src) + '_' + o.cfg))
-    path = os.path.join(d, re.sub(r'[^A-Za-z0-9_.@-]', '_', o.name) + ('.canary' if canary else '') + '.c')
+    path = os.path.join(d, re.sub(r'[^A-Za-z0-9_.@-]', '_', o.name) + ('.canary' if canary else '') + ('.witness' if witness else '') + '.c')
     write_if_changed(path, text)
     info = dict(functions=order, ast_hashes={c: ex.done[c]['ast_hash'] for c in order},
-                globals=sorted(n for n, _ in ex.ctx.need_globals))
+                globals=sorted(n for n, _ in ex.ctx.need_globals), globals_q=sorted(ex.ctx.need_globals),
+                tables=tables, harness_text=htext,
+                spec_lines=(ex.spec_for(o.enforce).get('function', []) if o.enforce else None),
+                fn_node=(ex.node(o.enforce) if o.enforce else None))
     return path, info
 
 
@@ -114,7 +160,7 @@ def sh(cmd, timeout):
     return run(['bash', '-c', limit_prefix() + cmd], timeout=timeout)
 
 
-def run_pipeline(o, path, trace=False, canary=False):
+def run_pipeline(o, path, trace=False, canary=False, stop_on_fail=False):
     base = path[:-2]
     a_gb, b_gb = base + '.a.gb', base + '.b.gb'
     t0 = time.time()
@@ -155,6 +201,8 @@ def run_pipeline(o, path, trace=False, canary=False):
     flags += o.extra_flags
     if trace:
         flags += ['--trace']
+    if stop_on_fail:
+        flags += ['--stop-on-fail']
     cmd = 'cbmc %s %s' % (shlex.quote(gb), ' '.join(flags))
     rc, out, err, secs = sh(cmd, o.timeout)
     for f in (a_gb, b_gb):
@@ -225,7 +273,8 @@ def check_obligation(o, want_trace=True):
     res = run_pipeline(o, path)
     res['name'] = o.name
     res['tu'] = path
-    res.update(info)
+    res['_info'] = info
+    res.update({k: v for k, v in info.items() if k in ('functions', 'ast_hashes', 'globals')})
     if res['status'] == 'pass':
         # vacuity guards
         kinds = ' '.join(p[0] + ' ' + p[1] for p in res['props'])
@@ -254,7 +303,15 @@ def check_obligation(o, want_trace=True):
             res['reason'] = 'proof no longer closes (only loop-contract bookkeeping failed): ' + \
                             '; '.join('%s %s' % (p[0], p[1]) for p in res['failed'][:5])
         elif want_trace:
-            tres = run_pipeline(o, path, trace=True)
-            res['trace'] = tres.get('out_full', '')[-200000:]
+            # counterexample extraction: re-run with every input byte an explicit assignment (bounded buffers)
+            try:
+                wpath, winfo = build_tu(o, witness=True)
+                wo = o
+                tres = run_pipeline(o, wpath, trace=True, stop_on_fail=True)
+                res['trace'] = tres.get('out_full', '')[-400000:]
+                res['witness_tu'] = wpath
+            except Undecided as e:
+                res['trace'] = ''
+                res['witness_error'] = str(e)
     res['secs_total'] = time.time() - t0
     return res
